@@ -11,7 +11,7 @@ from ..paths import ALL_LABELS, EXC_LABELS, NORMAL_LABELS, Search
 from ..program import AnalysisError, FuncEnv, FuncUnit, dotted, unparse
 from ..report import Collector
 from ..roles import SPAWN_EXT, is_ext
-from .common import after_event_search, loop_region, path_text
+from .common import after_event_search, loop_region, path_text, awaited_in_frame
 
 
 def _registry_adds(ctx: Ctx, g: Graph, spawn: Ev) -> Dict[int, object]:
@@ -434,7 +434,7 @@ def rule_cancellation_surfaces(ctx: Ctx, out: Collector) -> None:
                 cons = ctx.construct(ev) + ' [executor future awaited]'
                 if cons not in seen:
                     seen.add(cons)
-                    if ev.info.get('awaited'):
+                    if awaited_in_frame(ctx, g, ev):
                         out.ok('LK-6', cons, ev.where(), 'the executor future is awaited in the frame that created it')
                     else:
                         out.bad('LK-6', cons, ev.where(), 'the executor future is detached from the frame that created it')
